@@ -225,7 +225,7 @@ fn cmd_reward(a: &Args) {
 fn cmd_swap(a: &Args) {
     let mut out = Out::new(&a.s("out", "swap.ndjson"));
     let net = drive::net_of(&a.s("net", "custom02"));
-    swapdrive::swap_history(&mut out, &a.s("tag", "swap"), a.u64("seed", 1), net, a.u64("blocks", 10) as usize, a.u64("big", 0) == 1);
+    swapdrive::swap_history(&mut out, &a.s("tag", "swap"), a.u64("seed", 1), net, a.u64("blocks", 10) as usize, a.u64("big", 0) == 1, a.u64("forged", 0) == 1);
     let n = out.finish();
     println!("{}", json!({"records": n}));
 }
@@ -268,6 +268,7 @@ fn main() {
         Some("stake") => cmd_stake(&a),
         Some("chain") => cmd_chain(&a),
         Some("vmcost") => cmd_vmcost(&a),
+        Some("deepvalchild") => vm::deepval_child(a.u64("a", 1) as u16, a.u64("b", 1000) as u16),
         Some("deepchild") => vm::deep_child(a.u64("k", 1000) as usize),
         _ => {
             eprintln!("usage: harness <vm|...> [--key value]...");
